@@ -4,6 +4,7 @@ import (
 	"fmt"
 	"os"
 	"path/filepath"
+	"sort"
 	"time"
 
 	"github.com/0xrawsec/sod"
@@ -84,6 +85,13 @@ func runC10(k int, rng *Rng) CaseResult {
 	w.call("Create(Other)", func() { err = w.db.Create(&Other{}, osch) })
 	if err != nil {
 		w.fail("create-failed", "Create(Other)", "-", err.Error())
+		return w.finish(nil, false, nil)
+	}
+	// and a third one created with the very same Schema value (one settings variable used for
+	// several collections, as applications do)
+	w.call("Create(Tagged)", func() { err = w.db.Create(&Tagged{}, osch) })
+	if err != nil {
+		w.fail("create-failed", "Create(Tagged)", "-", err.Error())
 		return w.finish(nil, false, nil)
 	}
 	others := map[string]string{}
@@ -223,14 +231,18 @@ func runC10(k int, rng *Rng) CaseResult {
 			clockSettle()
 			w.abs("create")
 			check("Create")
-		case x < 62:
-			o := &Other{A: rng.Intn(3), B: fmt.Sprintf("b%d", i), C: 1.5}
-			w.call("InsertOrUpdate(Other)", func() { err = w.db.InsertOrUpdate(o) })
+		case x < 66:
+			var o sod.Object = &Other{A: rng.Intn(3), B: fmt.Sprintf("b%d", i), C: 1.5}
+			coll := "main.Other"
+			if rng.Bool() {
+				o, coll = &Tagged{Name: fmt.Sprintf("n%d", i), Code: "C", Num: int64(i)}, "main.Tagged"
+			}
+			w.call("InsertOrUpdate(other collection)", func() { err = w.db.InsertOrUpdate(o) })
 			if err == nil {
-				others[o.UUID()] = canonJSON(o)
+				others[o.UUID()] = coll
 			}
 			w.abs("other")
-		case x < 67:
+		case x < 70:
 			w.logf("FlushAll")
 			w.call("FlushAll", func() { err = w.db.FlushAll(&Rec{}) })
 			w.abs("flushall")
@@ -238,7 +250,7 @@ func runC10(k int, rng *Rng) CaseResult {
 				w.fail("flushall-incomplete", "FlushAll", "-", fmt.Sprintf("err=%v, %d accepted objects not on disk after FlushAll returned", err, st.dirty))
 			}
 			check("FlushAll")
-		case x < 72:
+		case x < 74:
 			w.logf("FlushAllAndCommit")
 			w.call("FlushAllAndCommit", func() { err = w.db.FlushAllAndCommit(&Rec{}) })
 			w.abs("flushcommit")
@@ -266,6 +278,9 @@ func runC10(k int, rng *Rng) CaseResult {
 		}
 		if st := w.diskStatus(); !w.failed() && (st.dirty > 0 || !st.schemaOK) {
 			w.fail("timeout-flush-missing", "flusher", "-", fmt.Sprintf("after timeout+4 iterations without calls: dirty=%d schema=%v", st.dirty, st.schemaOK))
+		}
+		if !w.failed() {
+			w.othersOnDisk(others, "timeout-flush-missing", "flusher")
 		}
 		check("idle")
 	}
@@ -295,6 +310,45 @@ func runC10(k int, rng *Rng) CaseResult {
 			clockSettle()
 			w.ReadSweep()
 		}
+		// (2) again, on a handle whose very first call is the write (the collection is loaded by
+		// that call, there was no Create and no read before), followed by silence
+		if !w.failed() && cfg.Timeout <= time.Second {
+			w.Reopen(false)
+			w.step++
+			if !w.failed() {
+				w.logf("first call on a new handle:")
+				var out writeOutcome
+				if live := w.m.Live(); len(live) > 0 && rng.P(0.6) {
+					r := w.callerCopy(pick(rng, live))
+					mutateRec(rng, r, RecOpts{ValidOnly: true, Simple: true})
+					out = w.Put(r, "update")
+				} else {
+					r := genRec(rng, w.m.tags, RecOpts{ValidOnly: true, Simple: true})
+					w.m.tags++
+					out = w.Insert(r)
+				}
+				w.abs("lazy-put>" + out.Class)
+				clockSettle()
+				if out.Class == "nil" && !w.failed() {
+					// one verdict for this scenario, decided on the directory after timeout + 4
+					// iterations of whatever flusher exists (none: nothing to drive)
+					n := int(cfg.Timeout/(100*time.Millisecond)) + 4
+					for j := 0; j < n && clockLive() > 0; j++ {
+						clockTick()
+					}
+					sp, ex := clockFlusherCensus()
+					if st := w.diskStatus(); st.dirty > 0 || !st.schemaOK {
+						if shimAvailable {
+							w.fail("first-call-write-not-flushed", "flusher", "-", fmt.Sprintf("a write accepted by the first call on a new handle (collection loaded by that call) is not on disk after timeout+4 iterations without calls: dirty=%d schema=%v; flushers of this handle: %d running (%d started, %d returned)", st.dirty, st.schemaOK, clockLive(), sp, ex))
+						} else {
+							w.incon = "no shim: virtual deadlines cannot be decided"
+						}
+					}
+					dirtyTicks, overThreshold = 0, 0
+					check("idle")
+				}
+			}
+		}
 	}
 	var sample interface{}
 	if k < sampleMax {
@@ -305,13 +359,23 @@ func runC10(k int, rng *Rng) CaseResult {
 }
 
 func (w *World) closeOthers(others map[string]string) {
-	dir := filepath.Join(w.root, "main.Other")
-	if w.cfg.LowerName {
-		dir = filepath.Join(w.root, goldenLowerName("main.Other"))
-	}
+	w.othersOnDisk(others, "close-incomplete", "Close")
+}
+
+// othersOnDisk: every accepted object of the other collections of the handle has its file.
+func (w *World) othersOnDisk(others map[string]string, clause, api string) {
+	us := make([]string, 0, len(others))
 	for u := range others {
+		us = append(us, u)
+	}
+	sort.Strings(us)
+	for _, u := range us {
+		dir := filepath.Join(w.root, others[u])
+		if w.cfg.LowerName {
+			dir = filepath.Join(w.root, goldenLowerName(others[u]))
+		}
 		if _, err := os.Stat(filepath.Join(dir, u+".json")); err != nil {
-			w.fail("close-incomplete", "Close", "other-collection", "object of the second collection not on disk after Close: "+short(u))
+			w.fail(clause, api, "other-collection", fmt.Sprintf("object %s of collection %s (created on the same handle, asynchronous, same timeout) is not on disk", short(u), others[u]))
 			return
 		}
 	}
